@@ -219,7 +219,7 @@ def gen_toolbox(rng: random.Random) -> dict:
     use_pushx = rng.random() < 0.6
     p_nf = rng.choice((0.5, 0.7, 0.9))
     p_inl = rng.choice((0.0, 0.15, 0.3, 0.5))
-    trivia = rng.choices((None, "ws", "comment", "both", "ws_nonsilent", "comment_stack", "both_stack", "ws_stack"), (56, 9, 8, 7, 5, 5, 6, 4))[0]
+    trivia = rng.choices((None, "ws", "comment", "both", "ws_nonsilent", "comment_stack", "both_stack", "ws_stack", "ws_push"), (54, 9, 8, 7, 5, 5, 6, 4, 2))[0]
 
     rules: dict[str, dict] = {}
     consuming: set[str] = set(LITERALS)  # rules that consume >= 1 char whenever they succeed
@@ -475,7 +475,13 @@ TRIVIA_RULES = {
     "comment_stack": ['COMMENT = _{ PUSH_LITERAL("c") ~ "#" ~ DROP }'],
     "both_stack": ['WHITESPACE = _{ " " }', 'COMMENT = _{ PUSH_LITERAL("c") ~ "#" ~ DROP }'],
     "ws_stack": ['WHITESPACE = _{ PUSH_LITERAL("w") ~ " " ~ DROP }'],
+    # UNBALANCED: every blank skipped stays on the stack.  Contrived, but well-formed; the
+    # only clause that is about it asks for consistency -- an implementation that gives back
+    # the POSITION of trivia skipped before a failed repetition iteration must give back its
+    # stack change too
+    "ws_push": ['WHITESPACE = _{ PUSH(" ") }'],
 }
+UNBALANCED_TRIVIA = ("ws_push",)
 
 
 def render_grammar(tb: dict) -> str:
@@ -700,6 +706,16 @@ def check_event_O1(ev, text, trivia=None):
     d = {"atom": ev["atom"], "pre_pos": ev["pre_pos"], "post_pos": ev["post_pos"], "pre_stack": pre, "post_stack": post, "result": res}
     if res is not True and res is not False:
         return (kind, "non-boolean-result", d)
+    if trivia in UNBALANCED_TRIVIA:
+        # operations that skip implicit trivia INSIDE themselves (this port's PEEK_ALL / POP_ALL,
+        # the idioms, PUSH(e) with a repetition in e) legitimately change the stack through it;
+        # nothing about them is specified then.  The operations that skip none keep every clause.
+        if spec[0] in ("peek_all", "pop_all", "until", "choice"):
+            return None
+        if spec[0] == "push":
+            if res and (post[: len(pre)] != pre or not post[len(pre) :] or post[-1] != text[ev["pre_pos"] : ev["post_pos"]]):
+                return (kind, "pushed-text-is-not-the-matched-text", d)
+            return None
     if not res:
         if post != pre or post_ids != pre_ids:
             return (kind, "stack-changed-on-failure", d)
@@ -786,6 +802,8 @@ def check_structure_O4(rec, tb, text, stats):
     if shapes is None:
         return None
     ch = rec["children"]
+    if k == "seq" and tb.get("trivia") in UNBALANCED_TRIVIA:
+        return None
     if k == "seq":
         # CONTINUITY: in a rule that is a plain sequence of rule references nothing but those
         # rules (and implicit trivia between them) runs.  Trivia skipping is `(WHITESPACE |
@@ -832,8 +850,9 @@ def check_structure_O4(rec, tb, text, stats):
             if r is None:
                 stats["structure_skipped"] += 1
                 return None
+            j0 = i
             i, res, start = r
-            evals.append((res, start, i))
+            evals.append((res, start, i, j0))
             if res is not False:
                 break
     elif k == "opt":
@@ -842,19 +861,20 @@ def check_structure_O4(rec, tb, text, stats):
             stats["structure_skipped"] += 1
             return None
         i, res, start = r
-        evals.append((res, start, i))
+        evals.append((res, start, i, 0))
     else:  # star plus rep: iterations of one operand
         while i < len(ch):
             r = consume_operand(shapes[0], ch, i)
             if r is None:
                 stats["structure_skipped"] += 1
                 return None
+            j0 = i
             i, res, start = r
-            evals.append((res, start, i))
+            evals.append((res, start, i, j0))
     if i != len(ch):
         stats["structure_skipped"] += 1
         return None
-    if k == "alt" and rec["res"] and all(r is False for r, _, _ in evals):
+    if k == "alt" and rec["res"] and all(e[0] is False for e in evals):
         # the rule succeeded although every alternative we saw failed: the alternative that
         # matched left no call record (a silent rule inlined by the optimizer), so the
         # rule's return is not an observation point for the ones before it
@@ -862,13 +882,18 @@ def check_structure_O4(rec, tb, text, stats):
         return None
     stats["structure_checked"] += 1
     construct = {"alt": "alternative", "opt": "optional"}.get(k, "repetition-iteration")
-    for res, start, nxt_i in evals:
+    unbalanced = tb.get("trivia") in UNBALANCED_TRIVIA
+    if unbalanced and k == "rep":
+        # e{..} is its unrolled sequence: the trivia between two of its elements is sequence
+        # trivia and stays, whatever the element before it did
+        return None
+    for res, start, nxt_i, first_i in evals:
         if res is not False:
             continue
         if nxt_i < len(ch):
-            nxt, where = ch[nxt_i]["pre"], "next operand"
+            nxt, nxt_pos, where = ch[nxt_i]["pre"], ch[nxt_i]["pre_pos"], "next operand"
         elif rec["res"]:
-            nxt, where = rec["post"], "rule return"
+            nxt, nxt_pos, where = rec["post"], rec["post_pos"], "rule return"
         else:
             # the rule as a whole failed after this operand: whatever encloses the rule rolls
             # back further, the stack at the rule's return is not an observation point
@@ -876,6 +901,18 @@ def check_structure_O4(rec, tb, text, stats):
         stats["failed_operands_checked"] += 1
         if ch[nxt_i - 1]["post"] != start:
             stats["probe_failed_operand_had_changed_stack"] += 1
+        if unbalanced and k not in ("alt", "opt"):
+            # implicit trivia skipped between the previous iteration and this one changed the
+            # stack legitimately.  pest counts it into the failed iteration (all of it undone);
+            # an implementation may also keep all of it.  What it may not do is give back the
+            # trivia's position and keep its stack change, or the other way round.
+            prev, prev_pos = (ch[first_i - 1]["post"], ch[first_i - 1]["post_pos"]) if first_i > 0 else (rec["pre"], rec["pre_pos"])
+            start_pos = ch[first_i]["pre_pos"]
+            kept = nxt == start and nxt_pos == start_pos
+            undone = nxt == prev and nxt_pos == prev_pos
+            if kept or undone or (prev == start and nxt == start):
+                continue
+            return ("trivia", "position-and-stack-of-trivia-before-a-failed-iteration-disagree", {"rule": name, "body": render_expr(ast), "before_trivia": [prev_pos, texts(prev)], "iteration_started_at": [start_pos, texts(start)], "after_the_failed_iteration": [nxt_pos, texts(nxt)], "observed_at": where})
         if nxt != start:
             return ("operator", f"stack-changes-kept-after-failed-{construct}", {"rule": name, "body": render_expr(ast), "stack_when_it_started": texts(start), "stack_at_next_observation": texts(nxt), "observed_at": where})
     return None
@@ -1003,7 +1040,7 @@ def gen_history(rng: random.Random, tb: dict):
         text = "".join(ch.upper() if rng.random() < 0.4 else ch for ch in text)
     if tb.get("trivia") and text:
         # sprinkle implicit-trivia characters
-        chars = {"ws": " ", "ws_nonsilent": " ", "comment": "#", "both": " #", "comment_stack": "#", "both_stack": " #", "ws_stack": " "}[tb["trivia"]]
+        chars = {"ws": " ", "ws_nonsilent": " ", "comment": "#", "both": " #", "comment_stack": "#", "both_stack": " #", "ws_stack": " ", "ws_push": " "}[tb["trivia"]]
         out = []
         for ch in text:
             out.append(ch)
